@@ -18,8 +18,9 @@ from symex.api import obligation
 ASSUMPTIONS = ["map names are non-empty alphanumeric strings (the constructor strips every other character; that cleaning is the "
                "identity on them), numbers are integers >= 1 rendered by str(int) as [1-9][0-9]* (contract of str/int)",
                "country codes: a symbolic index over the shipped ISO-3166 alpha-3 table plus ZAM",
-               "after conformance and unambiguity are proved, the regex match of a printed id is the tuple of its printed pieces "
-               "(that is what the stub Match returns to the library's own post-match code)",
+               "the regex match of a printed id is computed by the real pattern on a representative instance of the printed template "
+               "(tokens replaced by representative words / numerals); by the proved unambiguity the group boundaries do not "
+               "depend on the representative",
                "1-3 prediction ids; vehicle / cost enumerations exhaustively (one solution), pairs for cooperative solutions"]
 OUTSIDE = ["the C regex engine itself", "map names that become empty after cleaning (not valid ids)"]
 STUBS = ["placeholder tokens for str()/format() of proxies", "Match stub built from the printed pieces", "z3 sequence theory, cvc5 for word equations"]
@@ -94,26 +95,42 @@ class _Match:
 
 
 class _Pattern:
-    """stands in for the compiled pattern: the match of a printed id is the tuple of its printed pieces"""
+    """stands in for the compiled pattern on printed ids that contain placeholder tokens: every token is replaced by a
+    representative member of its class (distinct alphanumeric words for strings, distinct numerals for integers), the
+    library's real pattern is matched against that concrete string, and the representatives in the groups are mapped back
+    to the tokens.  By the unambiguity obligations the group boundaries do not depend on the representative chosen."""
 
-    def __init__(self, f, printed):
-        self.f, self.printed = f, printed
+    def __init__(self, real):
+        self.real = real
 
     def fullmatch(self, s):
-        assert s == self.printed
-        f = self.f
-        pred = f["pred"]
-        preds = None if pred is None else "".join("-" + str(p) for p in (pred if isinstance(pred, list) else [pred]))
-        return _Match(dict(cooperative="C-" if f["cooperative"] else None, country_id=f["country"], map_name=str(f["map_name"]),
-                           map_id=str(f["map_id"]), configuration_id=None if f["config"] is None else str(f["config"]),
-                           prediction_type=f["behavior"], prediction_ids=preds))
+        reps = {}
+        concrete = []
+        for piece in strs.pieces(s):
+            if isinstance(piece, str):
+                concrete.append(piece)
+                continue
+            rep = ("Zq%sx" % "abcdefgh"[len(reps)]) if isinstance(piece, strs.SymStr) else str(7001 + 13 * len(reps))
+            reps[rep] = str(piece)
+            concrete.append(rep)
+        m = self.real.fullmatch("".join(concrete))
+        if m is None:
+            return None
+        groups = {}
+        for name in self.real.groupindex:
+            v = m.group(name)
+            if v is not None:
+                for rep, tok in reps.items():
+                    v = v.replace(rep, tok)
+            groups[name] = v
+        return _Match(groups)
 
 
 def parse_back(V, f, printed):
     if not V.symbolic:
         return ScenarioID.from_benchmark_id(printed, VERSION)
     real = ScenarioID.benchmark_id_pattern
-    ScenarioID.benchmark_id_pattern = _Pattern(f, printed)
+    ScenarioID.benchmark_id_pattern = _Pattern(real)
     try:
         return ScenarioID.from_benchmark_id(printed, VERSION)
     finally:
@@ -214,7 +231,7 @@ def check_solution(V, sols, f):
     vehicle_ids, cost_ids, parsed_sid = None, None, None
     real = ScenarioID.benchmark_id_pattern
     if V.symbolic:
-        ScenarioID.benchmark_id_pattern = _Pattern(f, str(sid))
+        ScenarioID.benchmark_id_pattern = _Pattern(real)
     try:
         vehicle_ids, cost_ids, parsed_sid = CommonRoadSolutionReader._parse_benchmark_id(bid)
     finally:
